@@ -117,7 +117,7 @@ theorem head_no_body (admin : Str) (ct : Str) (sz : Option Nat) (lm : Option Str
 
 /-- **Gopher**: an error is exactly one type-3 line ending in CRLF. -/
 theorem gopher_error_line (admin : Str) (head : Bool) (m : Str) :
-    respond .gopher admin head (.notFound m) = [51] ++ m ++ lit "\t\terror.host\t1\r\n" := rfl
+    respond .gopher admin head (.notFound m) = [51] ++ menuField m ++ lit "\t\terror.host\t1\r\n" := rfl
 
 /-! ### totality: every request line gets exactly one answer -/
 
@@ -133,7 +133,7 @@ theorem parse_total (w q : Str) (nv : Bool) (p : Proto) (c : Conn) : ∃ r, pars
 theorem not_found_end_to_end (c : ServeCfg) (st : StatFn) (rq : Parsed) (m : Str) (g : Str)
     (hh : handled c st rq.selector = .notFound m) (hi : rq.geminiInput = none) (hb : rq.badRequest = false)
     (hg : rq.gplus = some g) :
-    respondParsed c st .gopher rq = some [.text ([51] ++ m ++ lit "\t\terror.host\t1\r\n")] ∧
+    respondParsed c st .gopher rq = some [.text ([51] ++ menuField m ++ lit "\t\terror.host\t1\r\n")] ∧
     respondParsed c st .gopherp rq = some [.text (lit "--2\r\n1 " ++ c.render.admin ++ [13, 10] ++ m ++ [13, 10])] ∧
     respondParsed c st .gemini rq = some [.text (statusLine (lit "51") m)] ∧
     respondParsed c st .spartan rq = some [.text (statusLine (lit "4") m)] := by
